@@ -159,6 +159,20 @@ let dispatch cmd r =
   | "thin" -> let f = next_arr r in out_list (thin f)
   | "euler" -> let n8 = next_int r = 1 in let f = next_arr r in out_list [euler_x4 n8 f]
   | "convexhull" -> let f = next_arr r in out_list (List.concat_map (fun (y, x) -> [y; x]) (convexhull f))
+  | "haar2d" | "ihaar2d" -> let f = next_arr r in
+      let (h, w) = (match f.shape with [a; b] -> (a, b) | _ -> failwith "2-D expected") in
+      let wn = Z.to_nat w and hn = Z.to_nat h in
+      let rec rows l = (match l with [] -> [] | _ -> let rec take n l = if n = 0 then ([], l) else (match l with x :: t -> let (a, b) = take (n - 1) t in (x :: a, b) | [] -> ([], [])) in
+                         let (a, b) = take (int_of_string (string_of_z w)) l in a :: rows b) in
+      let res = (if cmd = "haar2d" then haar2d wn hn (rows f.data) else ihaar2d wn hn (rows f.data)) in
+      out_list (List.concat res)
+  | "wavelet_row" | "iwavelet_row" -> let code = next_int r in let n = next_int r in
+      let l = List.init n (fun _ -> next_q r) in
+      let c = List.nth daubechies_tables code in
+      let res = (if cmd = "wavelet_row" then wavelet_row c l else iwavelet_row c l) in
+      out_list (List.concat_map (fun q -> let q = qred q in [q.qnum; Zpos q.qden]) res)
+  | "center_geom" -> let b = next_z r in let dims = next_list r in
+      (match center_geom dims b with Some g -> out_list (List.concat_map (fun (ns, d) -> [ns; d]) g) | None -> "OK none")
   | _ -> failwith ("unknown command " ^ cmd)
 
 let () =
